@@ -113,6 +113,29 @@ Theorem C12_encoding_complete_int : forall I A W stable exh,
 Proof. exact encoding_complete_int. Qed.
 Print Assumptions C12_encoding_complete_int.
 
+(* the searched call (budget_allocation=None): some allocation with a price system (and budget <= n * b when
+   the call is non-exhaustive: the library's "no empty allocation" row) gives a solution selecting it *)
+Theorem C12_encoding_complete_search_int : forall I A W stable exh b pay,
+  Forall (fun c => 0 <= c) (costs I) -> integral (budget I) -> Forall integral (costs I) ->
+  1 <= budget I -> (0 < length A <= 10)%nat -> wf_alloc I W ->
+  price_system I A W b pay stable exh ->
+  (exh = false -> budget I <= b * Qnat (length A)) ->
+  exists a, ps_constraints I A None stable exh a = true /\ binary I a
+            /\ (forall c, (c < nproj I)%nat -> (In c (alloc_of I a) <-> In c W)).
+Proof. exact encoding_complete_search_int. Qed.
+Print Assumptions C12_encoding_complete_search_int.
+
+(* the integrality hypothesis is necessary: costs 1 and 1/2, budget 1, one voter approving the first
+   project -- [0] is exhaustive and priceable, yet no assignment satisfies the rows (the "+ 1" of C0b).
+   The real call answers INFEASIBLE on this input; fractional costs are outside the property's quantifier. *)
+Theorem C12_encoding_complete_needs_integrality :
+  let I := mkInst [1; 1 # 2] 1 in
+  let A := [[0%nat]] in
+  priceable_spec I A [0%nat] false true
+  /\ forall a, ps_constraints I A (Some [0%nat]) false true a = false.
+Proof. exact fractional_cost_incomplete. Qed.
+Print Assumptions C12_encoding_complete_needs_integrality.
+
 (* lowering the voter budget to the largest spending keeps a price system (used for the big-M bound) *)
 Theorem C12_ps_shrink : forall I A W b pay stable exh b',
   price_system I A W b pay stable exh -> b' <= b ->
